@@ -55,9 +55,13 @@ def eps12 : Rat := 1 / 1000000000000
 
 def rabs (x : Rat) : Rat := if x < 0 then -x else x
 
-/-- `intersect_2lines2D(p1,d1,p2,d2)`; `none` for (nearly) parallel lines -/
+/-- `intersect_2lines2D(p1,d1,p2,d2)`; `none` for (nearly) parallel lines.  The code tests `|det(d1,d2)| ≤ 1e-12·|d1|·|d2|`
+(the sine of the angle of the directions, independent of their lengths); both sides are non-negative, so the test is the
+same on the SQUARES: `det² ≤ (1e-12)²·|d1|²·|d2|²` - no square root is taken.  A zero direction is always "parallel". -/
+def parallel2 (d1 d2 : V2) : Bool := decide (det2 d1 d2 * det2 d1 d2 ≤ eps12 * eps12 * V2.norm2 d1 * V2.norm2 d2)
+
 def intersect2 (p1 d1 p2 d2 : V2) : Option V2 :=
-  if rabs (det2 d1 d2) < eps12 then none
+  if parallel2 d1 d2 then none
   else
     let n2 : V2 := ⟨d2.y, -d2.x⟩
     let t := V2.dot (V2.sub p2 p1) n2 / V2.dot d1 n2
